@@ -230,7 +230,7 @@ func (c13) Cases(tier string, seed int64, kf *KnownFindings) []Case {
 	for ki := range ks {
 		cs = append(cs, Case{Kind: "bad", N: ki, Count: len(ps) * 3, Sub: -1})
 	}
-	cs = append(cs, Case{Kind: "typed", Count: 8, Sub: -1})
+	cs = append(cs, Case{Kind: "typed", Count: 12, Sub: -1})
 	for ki := range ks {
 		// deeper positions and two more entry points (destinations that have Flush), indexed on their own
 		cs = append(cs, Case{Kind: "deep", N: ki, Count: (len(deepPositions()) + len(ps)) * len(entryNames), Sub: -1})
@@ -397,6 +397,10 @@ func (c13) Run(c Case, env *Env) Result {
 			{"map[string]complex128", map[string]complex128{"z": 1i}},
 			{"[]complex64", []complex64{1, 2, 3}},
 			{"[]uintptr", []uintptr{1, 2}},
+			{"[]unsafe.Pointer", []unsafe.Pointer{unsafe.Pointer(&ch)}},
+			{"map[string]unsafe.Pointer", map[string]unsafe.Pointer{"k": unsafe.Pointer(&ch)}},
+			{"[]*unsafe.Pointer", []*unsafe.Pointer{new(unsafe.Pointer)}},
+			{"[1]unsafe.Pointer", [1]unsafe.Pointer{unsafe.Pointer(&ch)}},
 		}
 		for j := lo; j < hi && j < len(typed); j++ {
 			for entry := 0; entry < 3; entry++ {
